@@ -7,16 +7,27 @@
 // slice model after every operation; a second part replays histories and
 // injects every single file / database write fault position of every append
 // and rollback.
+//
+// Workers are child processes of this same binary (one history at a time
+// each): btcd's wire (de)serialiser borrows scratch buffers from one
+// process-wide channel and the stores deserialise a header on every read, so
+// goroutine workers in one process spend most of their time contending on it.
+// A child that dies (a panic of the code under test outside the guarded calls)
+// costs one inconclusive history, not the run.
 package main
 
 import (
+	"bufio"
+	"encoding/json"
 	"flag"
 	"fmt"
+	"io"
 	"os"
+	"os/exec"
 	"path/filepath"
 	"runtime"
-	"runtime/debug"
-	"runtime/pprof"
+	"strconv"
+	"strings"
 	"sync"
 	"time"
 
@@ -25,26 +36,44 @@ import (
 )
 
 type job struct {
-	fault bool
-	idx   int
+	Fault bool
+	Idx   int
+}
+
+func (j job) String() string {
+	if j.Fault {
+		return "F " + strconv.Itoa(j.Idx)
+	}
+	return "P " + strconv.Itoa(j.Idx)
+}
+
+type caseRec struct {
+	FP         string `json:"fp"`
+	Nontrivial bool   `json:"nt"`
+}
+
+// jobResult is what a child reports for one history (one JSON line).
+type jobResult struct {
+	Cases        []caseRec        `json:"cases"`
+	Marks        map[string]int   `json:"marks"`
+	Violations   []c07.Violation  `json:"violations"`
+	Inconclusive []string         `json:"inconclusive"`
+	Samples      []map[string]any `json:"samples"`
+	Stats        map[string]int64 `json:"stats"`
+	Seconds      float64          `json:"seconds"`
 }
 
 func main() {
 	onlyPlain := flag.Int("only-plain", -1, "run only plain history <index> (reproduction)")
 	onlyFault := flag.Int("only-fault", -1, "run only fault history <index> (reproduction)")
-	workers := flag.Int("workers", 0, "worker count (default: number of CPUs, max 16)")
+	workers := flag.Int("workers", 0, "worker processes (default: number of CPUs, max 16)")
+	child := flag.String("child", "", "internal: run as worker with this working directory")
+	template := flag.String("template", "", "internal: template directory for -child")
 	r := evid.New("C07", "fault_enumeration")
-
-	// The live heap is tiny and 16 workers allocate per lookup: with the
-	// default pacer the collector would run (and stop the world) thousands of
-	// times per second. Collect by heap limit instead.
-	if pf := os.Getenv("C07_PROF"); pf != "" {
-		f, _ := os.Create(pf)
-		pprof.StartCPUProfile(f)
-		go func() { time.Sleep(40 * time.Second); pprof.StopCPUProfile(); f.Close() }()
+	if *child != "" {
+		childMain(r.Seed, *template, *child)
+		return
 	}
-	debug.SetGCPercent(-1)
-	debug.SetMemoryLimit(2 << 30)
 
 	r.Rule("Part 1 (plain): seeded histories of 30-300 store calls over the real block-header and filter-header " +
 		"stores sharing one bbolt DB: block/filter batch appends (size 0..500 by class small/medium/large), filter " +
@@ -69,8 +98,9 @@ func main() {
 		"walletdb Update fails once). Faults inside the recovery path of an already failing append (double faults) are " +
 		"not enumerated: no implementation can restore the file when the restoring truncate itself fails.")
 	r.Assume("bbolt rolls an Update back completely when its closure returns an error; the harness File wrapper is a " +
-		"transparent pass-through to the *os.File the store opened when no fault is armed; 'not found' = the read " +
-		"returns any error. After a failed ROLLBACK the statement promises nothing: the state is only classified " +
+		"transparent pass-through to the *os.File the store opened when no fault is armed; the database is opened " +
+		"with a persisted freelist (noFreelistSync=false, a tuning knob headerfs does not depend on); 'not found' = the " +
+		"read returns any error. After a failed ROLLBACK the statement promises nothing: the state is only classified " +
 		"(coverage), then the harness rewrites the flat files to their pre-call content.")
 
 	nPlain := r.Pick(300, 5000)
@@ -84,9 +114,9 @@ func main() {
 			os.Exit(2)
 		}
 		scratch = d
+		defer os.RemoveAll(d)
 	}
 	root := filepath.Join(scratch, "c07")
-	defer os.RemoveAll(root)
 	env, err := c07.NewEnv(root)
 	if err != nil {
 		fmt.Fprintln(os.Stderr, "C07: cannot create template stores:", err)
@@ -95,11 +125,12 @@ func main() {
 	}
 
 	var jobs []job
+	single := *onlyPlain >= 0 || *onlyFault >= 0
 	switch {
 	case *onlyPlain >= 0:
 		jobs = []job{{false, *onlyPlain}}
 	case *onlyFault >= 0:
-		jobs = []job{{true, *onlyFault % 1_000_000}}
+		jobs = []job{{true, *onlyFault % faultIndexBase}}
 	default:
 		// Fault histories first: they are the long ones.
 		for i := 0; i < nFault; i++ {
@@ -114,43 +145,64 @@ func main() {
 	if nw <= 0 {
 		nw = min(runtime.NumCPU(), 16)
 	}
-	sink := c07.Sink{
-		Violation: func(v c07.Violation) {
-			r.Violation(evid.Sig(v.Rule, v.Shape), v.Rule+": "+v.What, v.Witness)
-		},
-		Inconclusive: r.Inconclusive,
-		Case:         r.Case,
-		Mark:         r.Mark,
-	}
-	ch := make(chan job)
+	nw = min(nw, len(jobs))
 	timing := os.Getenv("C07_TIMING") != "" // development aid: per-history wall time on stderr
+	ch := make(chan job)
 	var wg sync.WaitGroup
-	var mu sync.Mutex
-	total := c07.Stats{}
+	var mu sync.Mutex // guards samples: kept in job order so that the evidence is reproducible
+	samples := map[string]map[string]any{}
 	for w := 0; w < nw; w++ {
 		wg.Add(1)
 		go func(w int) {
 			defer wg.Done()
-			run := &c07.Runner{
-				Env: env, Dir: filepath.Join(root, fmt.Sprintf("w%02d", w)),
-				Stats: c07.Stats{}, Sink: sink, FullLimit: 1500,
-			}
+			dir := filepath.Join(root, fmt.Sprintf("w%02d", w))
+			var wk *worker
 			for j := range ch {
-				t0 := time.Now()
-				if j.fault {
-					runFault(r, run, env, j.idx)
-				} else {
-					runPlain(r, run, env, j.idx)
+				if wk == nil {
+					if wk, err = startWorker(r, env.TemplateDir, dir); err != nil {
+						r.Inconclusive("harness: cannot start worker process: " + err.Error())
+						continue
+					}
+				}
+				res, err := wk.run(j)
+				if err != nil {
+					// The child died or spoke garbage: this history
+					// decides nothing; a fresh child takes the next.
+					r.Inconclusive("worker process lost during a history: " + err.Error())
+					fmt.Fprintf(os.Stderr, "C07: worker lost on job %s: %v\n", j, err)
+					wk.kill()
+					wk = nil
+					continue
 				}
 				if timing {
-					fmt.Fprintf(os.Stderr, "timing w%02d fault=%v idx=%d %.2fs\n", w, j.fault, j.idx, time.Since(t0).Seconds())
+					fmt.Fprintf(os.Stderr, "timing w%02d %s %.2fs\n", w, j, res.Seconds)
 				}
+				for _, c := range res.Cases {
+					r.Case(c.FP, c.Nontrivial)
+				}
+				for fp, n := range res.Marks {
+					for i := 0; i < n; i++ {
+						r.Mark(fp)
+					}
+				}
+				for _, v := range res.Violations {
+					r.Violation(evid.Sig(v.Rule, v.Shape), v.Rule+": "+v.What, v.Witness)
+				}
+				for _, why := range res.Inconclusive {
+					r.Inconclusive(why)
+				}
+				for k, v := range res.Stats {
+					r.Count(k, v)
+				}
+				mu.Lock()
+				for _, s := range res.Samples {
+					samples[j.String()] = s
+				}
+				mu.Unlock()
 			}
-			mu.Lock()
-			for k, v := range run.Stats {
-				total[k] += v
+			if wk != nil {
+				wk.stop()
 			}
-			mu.Unlock()
 		}(w)
 	}
 	for _, j := range jobs {
@@ -159,17 +211,115 @@ func main() {
 	close(ch)
 	wg.Wait()
 
-	for k, v := range total {
-		r.Count(k, v)
+	for _, k := range []string{"P 0", "P 1", "P 2", "F 0", "F 1"} {
+		if s, ok := samples[k]; ok {
+			r.Sample(s)
+		}
 	}
 	r.Set("plain_histories", nPlain)
 	r.Set("fault_histories", nFault)
+	r.Set("worker_processes", nw)
 	os.RemoveAll(root)
-	if *onlyPlain >= 0 || *onlyFault >= 0 {
+	if single {
 		r.Finish(1)
 	}
-	// Floors: about half of what a quick / thorough run measures.
-	r.Finish(r.Pick(400, 1200))
+	// Floors: about half of what a quick (~900) / thorough (~1060) run measures.
+	r.Finish(r.Pick(400, 500))
+}
+
+// ---- parent side of a worker process
+
+type worker struct {
+	cmd *exec.Cmd
+	in  io.WriteCloser
+	out *bufio.Reader
+}
+
+func startWorker(r *evid.Run, templateDir, dir string) (*worker, error) {
+	exe, err := os.Executable()
+	if err != nil {
+		return nil, err
+	}
+	cmd := exec.Command(exe, "-tier", r.Tier, "-seed", strconv.FormatInt(r.Seed, 10),
+		"-child", dir, "-template", templateDir)
+	cmd.Stderr = os.Stderr
+	cmd.Env = append(os.Environ(), "GOMAXPROCS=2")
+	in, err := cmd.StdinPipe()
+	if err != nil {
+		return nil, err
+	}
+	out, err := cmd.StdoutPipe()
+	if err != nil {
+		return nil, err
+	}
+	if err := cmd.Start(); err != nil {
+		return nil, err
+	}
+	return &worker{cmd: cmd, in: in, out: bufio.NewReaderSize(out, 1<<20)}, nil
+}
+
+func (w *worker) run(j job) (*jobResult, error) {
+	if _, err := fmt.Fprintln(w.in, j.String()); err != nil {
+		return nil, err
+	}
+	line, err := w.out.ReadBytes('\n')
+	if err != nil {
+		return nil, fmt.Errorf("job %s: %w", j, err)
+	}
+	var res jobResult
+	if err := json.Unmarshal(line, &res); err != nil {
+		return nil, fmt.Errorf("job %s: bad result line: %w", j, err)
+	}
+	return &res, nil
+}
+
+func (w *worker) stop() { w.in.Close(); w.cmd.Wait() }
+func (w *worker) kill() { w.in.Close(); w.cmd.Process.Kill(); w.cmd.Wait() }
+
+// ---- child side
+
+const faultIndexBase = 1_000_000 // fault histories live in their own index space
+
+func childMain(seed int64, templateDir, dir string) {
+	env, err := c07.UseEnv(templateDir)
+	if err != nil {
+		fmt.Fprintln(os.Stderr, "C07 worker:", err)
+		os.Exit(2)
+	}
+	defer os.RemoveAll(dir)
+	in := bufio.NewScanner(os.Stdin)
+	out := bufio.NewWriter(os.Stdout)
+	for in.Scan() {
+		f := strings.Fields(in.Text())
+		if len(f) != 2 {
+			continue
+		}
+		idx, _ := strconv.Atoi(f[1])
+		t0 := time.Now()
+		res := &jobResult{Marks: map[string]int{}, Stats: map[string]int64{}}
+		run := &c07.Runner{
+			Env: env, Dir: dir, Stats: c07.Stats(res.Stats), FullLimit: 1500,
+			Sink: c07.Sink{
+				Violation:    func(v c07.Violation) { res.Violations = append(res.Violations, v) },
+				Inconclusive: func(why string) { res.Inconclusive = append(res.Inconclusive, why) },
+				Case:         func(fp string, nt bool) { res.Cases = append(res.Cases, caseRec{fp, nt}) },
+				Mark:         func(fp string) { res.Marks[fp]++ },
+			},
+		}
+		if f[0] == "F" {
+			runFault(res, run, seed, env, idx)
+		} else {
+			runPlain(res, run, seed, env, idx)
+		}
+		res.Seconds = time.Since(t0).Seconds()
+		b, err := json.Marshal(res)
+		if err != nil {
+			b, _ = json.Marshal(&jobResult{Inconclusive: []string{"harness: result not serialisable: " + err.Error()}})
+		}
+		out.Write(b)
+		out.WriteByte('\n')
+		out.Flush()
+	}
 }
 
 func lenBucket(n int) string {
@@ -202,7 +352,7 @@ func describe(h *c07.History) (fp string, nontrivial bool, summary map[string]an
 		if op.Note == "readd-same" {
 			flags["readd-same"] = true
 		}
-		if len(op.Note) >= 10 && op.Note[:10] == "to-genesis" {
+		if strings.HasPrefix(op.Note, "to-genesis") {
 			flags["to-genesis"] = true
 		}
 	}
@@ -228,42 +378,39 @@ func describe(h *c07.History) (fp string, nontrivial bool, summary map[string]an
 	return fp, nonEmptyAppend && rollback, summary
 }
 
-func runPlain(r *evid.Run, run *c07.Runner, env *c07.Env, idx int) {
-	h := c07.Generate(r.Seed, idx, env, false)
+func runPlain(res *jobResult, run *c07.Runner, seed int64, env *c07.Env, idx int) {
+	h := c07.Generate(seed, idx, env, false)
 	fp, nontrivial, summary := describe(h)
 	ok := run.RunPlain(h, nil)
-	r.Case(fp, nontrivial)
+	run.Sink.Case(fp, nontrivial)
 	run.Stats.Add("plain_histories_completed", b2i(ok))
 	if idx < 3 {
 		summary["part"] = "plain"
 		summary["completed_without_violation"] = ok
-		r.Sample(summary)
+		res.Samples = append(res.Samples, summary)
 	}
 }
 
-func runFault(r *evid.Run, run *c07.Runner, env *c07.Env, idx int) {
-	// Fault histories live in their own index space and stay in the
-	// small/medium batch classes: every attempt is followed by a complete
-	// read comparison.
-	h := c07.Generate(r.Seed, 1_000_000+idx, env, true)
-	_, _, summary := describe(h)
+func runFault(res *jobResult, run *c07.Runner, seed int64, env *c07.Env, idx int) {
+	// Fault histories stay in the small/medium batch classes: every attempt
+	// is followed by a complete read comparison.
+	h := c07.Generate(seed, faultIndexBase+idx, env, true)
+	fp, nontrivial, summary := describe(h)
 	prof := &c07.Profile{}
-	fp, nontrivial, _ := describe(h)
 	okProfile := run.RunPlain(h, prof)
-	r.Case(fp, nontrivial) // the profiling run is a complete plain history of its own
+	run.Sink.Case(fp, nontrivial) // the profiling run is a complete plain history of its own
 	if !okProfile {
 		run.Stats.Add("fault_histories_profile_run_failed", 1)
 		return
 	}
 	run.Stats.Add("fault_histories_profiled", 1)
-	before := run.Stats["fault_attempts"]
 	ok := run.RunFaults(h, prof)
 	run.Stats.Add("fault_histories_completed", b2i(ok))
 	if idx < 2 {
 		summary["part"] = "fault"
-		summary["fault_attempts"] = run.Stats["fault_attempts"] - before
+		summary["fault_attempts"] = run.Stats["fault_attempts"]
 		summary["completed_without_violation"] = ok
-		r.Sample(summary)
+		res.Samples = append(res.Samples, summary)
 	}
 }
 
